@@ -25,7 +25,7 @@ from harness.ledger_util import run_b3
 
 BOUNDS = {   # tier -> (MaxLaunch for B1 and launch-level replay, longest list replayed through real elements)
     'quick': (3, 2),
-    'thorough': (4, 3),
+    'thorough': (3, 3),
 }
 MODEL_BANDS = {   # must be the constants of MC_ChannelSet (checked against the real equipment before replaying)
     'multi': [[-1875000, 3025000], [-6600000, -3000000]],
